@@ -4,6 +4,7 @@
 package c14
 
 import (
+	"fmt"
 	"os"
 	"reflect"
 	"strings"
@@ -63,10 +64,19 @@ func known(p gobatch.Program, got, want gobatch.Result) string {
 		return "F-C14-1"
 	}
 	if p.HasTag("complex128-declared-after-int-addr") &&
-		(p.Meta["mode"] == "reader" || strings.Contains(got.Err, "complex128")) {
+		(p.Meta["mode"] == "reader" || strings.Contains(failingInput(p, got.Err), "complex128")) {
 		return "F-C14-2"
 	}
 	return ""
+}
+
+// failingInput returns the text of the input named by "input N failed" in err.
+func failingInput(p gobatch.Program, err string) string {
+	var n int
+	if _, e := fmt.Sscanf(err, "input %d failed", &n); e != nil || n < 0 || n >= len(p.Decls) {
+		return ""
+	}
+	return p.Decls[n]
 }
 
 func config() gobatch.Config {
